@@ -35,6 +35,21 @@ def run_case(prog, init, stubs, acc, con, lib):
     # a caller may also bind a library name to null (e.g. to disable it): the library never puts its function back
     extra.update({n[:-5]: None for n in stubs if n.endswith('=null')})
     verdict, real, _ = exec_prog.compare_case(prog, init, None, acc, 'C04', lib, text=text, case=case, extra_hosts=extra)
+    if real and verdict in ('ok', 'known') and len(text) % 3 == 0:
+        # history: the host lints the model (what `bare -d` and debug-mode includes do) before running it - linting only reads the model,
+        # the parameters keep their positions and the run is the same
+        def lint_then_parse(t):
+            import bare_script
+            from bare_script.model import lint_script
+            m = bare_script.parse_script(t)
+            lint_script(m)
+            return m
+        alt = exec_prog.run_real(text, init, None, extra_hosts=extra, parse=lint_then_parse)
+        acc.count('linted_before_run')
+        if alt['status'] != 'timeout':
+            bad = [k for k in ('status', 'result', 'logs', 'globals') if alt[k] != real[k]]
+            if bad:
+                acc.violation('run-differs-after-the-model-was-linted:' + ','.join(bad), '; '.join(f'{k}: linted={alt.get(k)!r:.300} plain={real.get(k)!r:.300}' for k in bad) + f'\n{text}', dict(case, linted=True))
     _drain(con, acc, 'C04', case)
     calls = sum(1 for l in (real or {}).get('logs', []) if l.startswith('in_')) if real else 0
     acc.case((text, repr(case['init']), case['stubs']), calls >= 1)
